@@ -59,8 +59,16 @@ func (p *Paragraph) WriteTo(out io.Writer) error {
 	for _, key := range p.Order {
 		value := p.Values[key]
 
-		value = strings.Replace(value, "\n", "\n ", -1)
-		value = strings.Replace(value, "\n \n", "\n .\n", -1)
+		/* Every line after the first is a continuation line: it starts with
+		 * a space, and a blank line is written as " .". The newline that
+		 * ends a folded value (the reader adds one) is not a line itself. */
+		lines := strings.Split(strings.TrimSuffix(value, "\n"), "\n")
+		for i := 1; i < len(lines); i++ {
+			if strings.TrimSpace(lines[i]) == "" {
+				lines[i] = "."
+			}
+		}
+		value = strings.Join(lines, "\n ")
 
 		if _, err := out.Write(
 			[]byte(fmt.Sprintf("%s: %s\n", key, value)),
